@@ -101,7 +101,7 @@ def run(tier, seed):
     res = Result(PID, tier, seed)
     res.rule = ("request lines of the transform / Merkle / parcpy shape grids (plus transforms of 2^5..2^7 rows, thorough 2^10) executed "
                 "(i) with the OpenMP stand-in running team members sequentially in permuted orders, team sizes 1,2,3,5,8 and 64 (more "
-                "members than iterations), 2 order seeds each (thorough 6), every output compared bit for bit with the one-member run; "
+                "members than iterations) and a runtime granting only 1 or 2 of 5 requested members, 2 order seeds each (thorough 6), every output compared bit for bit with the one-member run; "
                 "(ii) under ThreadSanitizer with the pthread stand-in, teams of 2,3,4; (iii) with real libgomp teams of 2,3,5,16 "
                 "against 1; distinct = distinct (kind, team size, mode)")
     res.assumptions = ["race freedom of the COMPILED loop bodies is observed (TSan, permuted orders), not proved; the theorems are about the "
@@ -149,6 +149,10 @@ def run(tier, seed):
                 for sd in range(seeds):
                     reqs.append("@0:%d:%x %s" % (t, (seed * 7919 + sd * 104729 + t) & 0xFFFFFFFF, with_threads(ln, t if kind != "merkle" or sd else 0)))
                     meta.append((ln, kind, t, len(reqs) - 1))
+            # a runtime that GRANTS fewer members than requested (nested region, thread limit): request 5, get 1 or 2
+            for cap in (1, 2):
+                reqs.append("@0:5:%x:%d %s" % ((seed * 31 + cap) & 0xFFFFFFFF, cap, with_threads(ln, 5)))
+                meta.append((ln, kind, 100 + cap, len(reqs) - 1))
         out = run_parallel(hs, reqs, timeout=1800)
         base = None
         for (ln, kind, t, _), rq, r in zip(meta, reqs, out):
@@ -158,7 +162,8 @@ def run(tier, seed):
                 continue
             if r != base:
                 res.failures.append({"key": "order:" + kind, "lines": [rq[:8000]], "expected": "bit-identical to the one-member run: " + (base or "")[:200],
-                                     "observed": (r or "")[:300], "note": "sequential stand-in runtime, team of %d in a permuted order" % t})
+                                     "observed": (r or "")[:300], "note": ("sequential stand-in runtime, team of %d in a permuted order" % t) if t < 100 else
+                                     ("stand-in runtime granting only %d member(s) of the 5 requested" % (t - 100))})
     ht, err = build_harness("tsan")
     if err:
         res.broken.append(("harness build (tsan)", err))
